@@ -45,6 +45,9 @@ type RefLists struct {
 	stores map[*ssa.Parameter]string
 	// assume: values assumed for boolean parameters while a callee is re-examined for one call site
 	assume map[*ssa.Parameter]bool
+	// nest / asking: recursion guard of the element <-> list questions
+	nest   int
+	asking map[ssa.Value]bool
 }
 
 type sweep struct {
@@ -71,7 +74,7 @@ func (c *Ctx) NewRefLists() *RefLists { return c.NewRefListsFor(c.referenceSpec(
 // (live registers).
 func (c *Ctx) NewRefListsFor(base TaintSpec) *RefLists {
 	rl := &RefLists{c: c, objT: c.TypeNamed("object", "Object"), rawParam: map[*ssa.Parameter]bool{}, rawRet: map[*ssa.Function][]bool{},
-		sweeps: map[ssa.Value][]sweep{}, stores: map[*ssa.Parameter]string{}}
+		sweeps: map[ssa.Value][]sweep{}, stores: map[*ssa.Parameter]string{}, asking: map[ssa.Value]bool{}}
 	rl.funcs = c.ModuleSSAFuncs()
 	rl.spec = base
 	rl.spec.Source = func(v ssa.Value) bool {
@@ -81,6 +84,14 @@ func (c *Ctx) NewRefListsFor(base TaintSpec) *RefLists {
 		// an element read out of a list that may hold References
 		if ld, ok := v.(*ssa.UnOp); ok {
 			if ia, ok := ld.X.(*ssa.IndexAddr); ok && rl.isList(ia.X) {
+				// (the element taint asks about the list, the list about its elements: bounded; past the bound the
+				// element is taken to be raw, the safe answer)
+				if rl.nest > 12 || rl.asking[ld] {
+					return true
+				}
+				rl.nest++
+				rl.asking[ld] = true
+				defer func() { rl.nest--; delete(rl.asking, ld) }()
 				return rl.rawAt(ia.X, ld, map[ssa.Value]bool{})
 			}
 		}
